@@ -330,6 +330,8 @@ def r01_1(run, model):
 
 KEEP_FILES = ("crates/compiler/src/compile_match.rs", "crates/compiler/src/mono.rs", "crates/compiler/src/lift.rs", "crates/compiler/src/anf.rs",
               "crates/compiler/src/go/dce.rs", "crates/compiler/src/go/compile.rs")
+# the passes that translate one term into one term: nothing of the input may be filtered away while rebuilding
+FILTER_FREE_FILES = KEEP_FILES[:4]
 KEEP_LEDGER = {
     ("gen_type_definition", "goenv.structs()"): "generic struct templates have no Go declaration; their instances are declared",
     ("gen_type_definition", "goenv.enums()"): "generic enum templates have no Go declaration; their instances are declared",
@@ -347,16 +349,30 @@ def r01_5(run, model, only_files=None):
                       "skipped); expected count zero in the pass files, ledgered exceptions, positive control elsewhere in the compiler")
     ctrl = 0
     n = 0
+    nfilter = 0
     for f in model.fns():
         if f.body is None or not f.file.startswith("crates/compiler/src/") or "/tests/" in f.file or "/pprint/" in f.file:
             continue
         for loop in S.find(f.body, "For"):
             stmts = loop["body"]["stmts"]
             pushes = [st for st in stmts if st["k"] == "ExprStmt" and st["expr"]["k"] == "MethodCall" and st["expr"]["method"] in ("push", "insert", "extend", "push_back")]
+            inner = list(S.find(loop["body"], "For", "While", "Loop"))
             if not pushes:
+                # a loop that accumulates only under an `if` without an else keeps some elements and loses the others
+                par = S.Parents(loop["body"])
+                cond = [c for c in S.walk_no_closures(loop["body"]) if c["k"] == "MethodCall" and c["method"] in ("push", "push_back")
+                        and not any(S.span_contains(l2["sp"], c["sp"]) for l2 in inner)
+                        and any(a["k"] == "If" and a.get("else") is None for a in par.ancestors(c))]
+                if cond and f.file in KEEP_FILES:
+                    if f.file in FILTER_FREE_FILES and (only_files is None or f.file in only_files):
+                        it = S.norm_ws(run.facts.text(f.file, loop["iter"]["sp"]))
+                        run.ob("R01.5", f"{f.name}|loop over {it[:40]} keeps only the elements that pass a test", False, site(f.file, loop["sp"]),
+                               "every push of this loop sits under an `if` without an else: the elements failing the test leave no trace in the result",
+                               witness="match (eff(1), eff(2)) { (_, 0) => .., (_, _) => .. }: the component no arm looks at is never evaluated, `1` is not printed")
+                    else:
+                        nfilter += 1
                 continue
             last = pushes[-1]
-            inner = list(S.find(loop["body"], "For", "While", "Loop"))
             conts = [x for x in S.walk_no_closures(loop["body"]) if x["k"] == "Continue" and (x["sp"][0], x["sp"][1]) < (last["sp"][0], last["sp"][1])
                      and not any(S.span_contains(l2["sp"], x["sp"]) for l2 in inner)]
             if f.file not in KEEP_FILES:
@@ -382,6 +398,7 @@ def r01_5(run, model, only_files=None):
                    witness="a match arm / switch case / row that is skipped while rebuilding: the value it handled falls through to the default or to nothing")
     run.floor("accumulating loops in the IR passes", n, 40 if only_files is None else 8)
     run.floor("positive control: loops with a skip before the push elsewhere in the compiler", ctrl, 8)
+    run.floor("positive control: filtering loops (push only under a test) in the Go emitter and its dead-code pass", nfilter, 5)
 
 
 def r01_6(run, model):
